@@ -50,15 +50,18 @@ def monitor(s, ev, evec, kind, v, t, k):
     if np.max(np.abs(G - np.eye(k))) > 1e-6:
         return ("B-orthonormal", "eigenvectors not orthonormal in the mass inner product (max dev %.3g)" % np.max(np.abs(G - np.eye(k))))
     if n <= 120:
-        w = scipy.linalg.eigh(A.toarray(), B.toarray(), eigvals_only=True)
-        tol = 1e-6 * max(1.0, abs(w[:k]).max()) + 1e-7
+        # dense reference on the diagonally equilibrated pencil (same eigenvalues; graded meshes / small units make B badly scaled)
+        dsc = 1.0 / np.sqrt(np.maximum(B.diagonal(), 1e-300))
+        w = scipy.linalg.eigh(dsc[:, None] * A.toarray() * dsc[None, :], dsc[:, None] * B.toarray() * dsc[None, :], eigvals_only=True)
+        tol = 1e-6 * max(1.0, abs(w[:k]).max()) + 1e-7 + 1e-11 * abs(w).max()          # the dense solver is accurate to ~eps * largest eigenvalue
         if np.max(np.abs(w[:k] - ev)) > tol:
             return ("smallest", "returned values differ from the k smallest of the dense reference: %s vs %s" % (ev[:5], w[:5]))
     comp = components(n, t)
     ncomp = len(set(comp))
     # "numerically zero" is judged against the first eigenvalue that must be positive (index = number of components), not against
     # the largest returned one (graded meshes have spectra spanning ten orders of magnitude)
-    nz = int(np.sum(np.abs(ev) < 1e-7 * max(1.0, abs(ev[min(k - 1, ncomp)]))))
+    lam_max = float(np.max(A.diagonal() / np.maximum(np.asarray(B.sum(axis=1)).ravel(), 1e-300)))       # scale of the largest eigenvalue
+    nz = int(np.sum(np.abs(ev) < 1e-7 * max(1.0, abs(ev[min(k - 1, ncomp)])) + 1e-13 * lam_max))
     if nz != min(ncomp, k):
         return ("zero-eigenvalues", "%d numerically zero eigenvalues, %d components (k=%d)" % (nz, ncomp, k))
     for j in range(nz):
@@ -98,6 +101,10 @@ class Check(BaseCheck):
                 n = len(c["v"])
                 if len(np.unique(c["t"])) != n or n < 5:
                     continue
+                if kind == "tri":
+                    from .. import corr_fem
+                    if np.min(np.linalg.norm(corr_fem.tri_geom(c["v"], c["t"])[3], axis=1)) < 4 * np.finfo(float).eps:
+                        continue          # triangles below the kernel's absolute 2^-52 guard are replaced by design: outside the quantifier
                 ks = sorted({1, int(rng.integers(2, max(3, n - 1))), min(n - 1, 6)}) if self.quick or n > 30 else list(range(1, n))
                 multi = c["name"] in ("two-components", "two-spheres")
                 for k in ks:
